@@ -518,4 +518,125 @@ Proof.
   - (* bad *) apply (step_ok_same w G); [assumption|intros t []].
 Qed.
 
+(* the same for [ustep]: the fault plan is the world's *)
+Definition plan (w : uworld) (o : uop) : fctx := f_of cx0 (if is_destroying o then uw_arm w else O).
+
+Theorem ustep_ok orc w o G L used :
+  LJ P (uw_stores w) G L used -> fresh (intro_uids o) used -> orphan_ok w o (plan w o) ->
+  (exists G', LJ P (uw_stores (fst (fst (ustep orc w o)))) G' (cx_drops (fx (snd (ustep orc w o))) ++ L) (intro_uids o ++ used)) /\
+  cx_stuck (fx (snd (ustep orc w o))) = false /\
+  (forall t, In t (out_toks (snd (fst (ustep orc w o)))) -> real (fst t) = true -> ~ In (fst t) L).
+Proof.
+  intros HJ Hfr Horph.
+  destruct o; try (
+    pose proof (ustep_core_ok orc w _ (plan w _) G L used HJ eq_refl (fun H => ltac:(unfold plan; rewrite H; reflexivity)) Hfr Horph) as X;
+    unfold ustep; fold (plan w); unfold step_ok in X;
+    match goal with |- context [ustep_core orc w ?o ?f] => change f with (plan w o); destruct (ustep_core orc w o (plan w o)) as [[w1 out] f1] end;
+    cbn [fst snd set_arm uw_stores] in *; exact X).
+  (* arm *)
+  cbn [ustep fst snd set_arm uw_stores f_of fx cx0 cx_drops cx_stuck app out_toks intro_uids].
+  split; [eauto|]. split; [reflexivity|intros t []].
+Qed.
+
+(* ------------------------------------------------------------------ *)
+(* whole histories *)
+
+Definition hist_uids (os : list uop) : list N := flat_map intro_uids os.
+
+Lemma fresh_app a b : forall used, fresh (a ++ b) used -> fresh a used /\ fresh b (a ++ used).
+Proof.
+  induction a as [|u a IH]; intros used H; cbn [app] in *.
+  - split; [split; [apply ndr_nil|intros u []]|assumption].
+  - destruct (fresh_cons _ _ _ H) as [Hu Hr]. destruct (IH _ Hr) as [[A1 A2] [B1 B2]]. split; [split|split].
+    + apply ndr_cons; [assumption|]. intros R Hin. apply (A2 u Hin R). left. reflexivity.
+    + intros v [<-|Hv] R; [auto|]. intros Hin. apply (A2 v Hv R). right. assumption.
+    + assumption.
+    + intros v Hv R Hin. apply (B2 v Hv R). apply in_or_app. destruct Hin as [E|Hin]; [right; left; assumption|].
+      apply in_app_or in Hin. destruct Hin as [Hin|Hin]; [left; assumption|right; right; assumption].
+Qed.
+
+(* every step of a run satisfies the orphan side condition *)
+Fixpoint orphan_run (orcs : list oracle) (w : uworld) (os : list uop) : Prop :=
+  match os with
+  | [] => True
+  | o :: os' =>
+      orphan_ok w o (plan w o) /\
+      orphan_run (tl orcs) (fst (fst (ustep (match orcs with x :: _ => x | [] => orc0 end) w o))) os'
+  end.
+
+Theorem urun_ok os : forall orcs w G L used,
+  LJ P (uw_stores w) G L used -> fresh (hist_uids os) used -> orphan_run orcs w os ->
+  exists G' used', LJ P (uw_stores (fst (urun orcs w L os))) G' (snd (urun orcs w L os)) used' /\
+                   (forall u, In u used' -> In u (hist_uids os) \/ In u used).
+Proof.
+  induction os as [|o os IH]; intros orcs w G L used HJ Hfr Ho; cbn [urun hist_uids flat_map] in *.
+  - exists G, used. cbn [fst snd]. split; [assumption|auto].
+  - destruct (fresh_app _ _ _ Hfr) as [F1 F2]. destruct Ho as [Ho1 Ho2].
+    set (orc := match orcs with x :: _ => x | [] => orc0 end) in *.
+    destruct (ustep_ok orc w o G L used HJ F1 Ho1) as [[G1 A] _].
+    destruct (ustep orc w o) as [[w1 out] f1]. cbn [fst snd] in *.
+    destruct (IH (tl orcs) w1 G1 _ _ A F2 Ho2) as [G' [used' [B C]]].
+    exists G', used'. split; [assumption|].
+    intros u Hu. destruct (C u Hu) as [H|H]; [left; apply in_or_app; right; assumption|].
+    apply in_app_or in H. destruct H as [H|H]; [left; apply in_or_app; left; assumption|right; assumption].
+Qed.
+
 End World.
+
+(* ------------------------------------------------------------------ *)
+(* the weak instance: holds after every history, whatever panicked *)
+
+Definition anyP : tok -> Prop := fun _ => True.
+
+Lemma orphan_run_any orcs : forall os w, orphan_run anyP orcs w os.
+Proof.
+  intros os. revert orcs. induction os as [|o os IH]; intros orcs w; cbn [orphan_run]; [exact I|].
+  split; [intros sid h v ms e _ _ _ _ _ _; exact I|apply IH].
+Qed.
+
+(* NO DOUBLE DROP, whole histories: whatever the history, the fault positions
+   and the oracles, the destruction ledger holds no real uid twice - provided
+   the history gives distinct uids to the values it creates *)
+Theorem run_no_double_drop orcs os : ndr (hist_uids os) -> ndr (snd (urun orcs uw_init [] os)).
+Proof.
+  intros H.
+  destruct (urun_ok anyP I os orcs uw_init (NM.empty (NM.t tok)) [] [] (LJ_init anyP)) as [G' [used' [A _]]].
+  - split; [assumption|intros u _ _ []].
+  - apply orphan_run_any.
+  - apply (LJ_nodup _ _ _ _ _ A).
+Qed.
+
+(* ... and the final teardown (drop of the world, in any order of its resources) destroys nothing again *)
+Theorem teardown_no_double_drop orcs orc os : ndr (hist_uids os) ->
+  ndr (cx_drops (fx (uw_teardown orc (fst (urun orcs uw_init [] os)))) ++ snd (urun orcs uw_init [] os)).
+Proof.
+  intros H.
+  destruct (urun_ok anyP I os orcs uw_init (NM.empty (NM.t tok)) [] [] (LJ_init anyP)) as [G' [used' [A _]]].
+  - split; [assumption|intros u _ _ []].
+  - apply orphan_run_any.
+  - unfold uw_teardown.
+    destruct (drop_world_LJ anyP I orc _ G' (f_of cx0 O) (snd (urun orcs uw_init [] os)) used' A eq_refl) as [B _].
+    apply (LJ_nodup _ _ _ _ _ B).
+Qed.
+
+(* NO STALE READ: after any history, no output of the next operation - lookup,
+   join, slice view, or a value handed back by insert / remove - carries a uid
+   that the ledger says was destroyed; and the storage layer is not stuck
+   (no out-of-bounds index, no uninitialised read, no unwrap of None) *)
+Theorem run_no_stale_read orcs orc os o : ndr (hist_uids (os ++ [o])) ->
+  let w := fst (urun orcs uw_init [] os) in
+  let L := snd (urun orcs uw_init [] os) in
+  (forall t, In t (out_toks (snd (fst (ustep orc w o)))) -> real (fst t) = true -> ~ In (fst t) L) /\
+  cx_stuck (fx (snd (ustep orc w o))) = false.
+Proof.
+  intros H. cbn zeta. unfold hist_uids in H. rewrite flat_map_app in H. cbn [flat_map] in H. rewrite app_nil_r in H.
+  assert (fresh (hist_uids os ++ intro_uids o) []) as Hfr by (split; [assumption|intros u _ _ []]).
+  destruct (fresh_app _ _ _ Hfr) as [F1 F2].
+  destruct (urun_ok anyP I os orcs uw_init (NM.empty (NM.t tok)) [] [] (LJ_init anyP) F1 (orphan_run_any _ _ _)) as [G' [used' [A D]]].
+  assert (fresh (intro_uids o) used') as F3.
+  { destruct F2 as [F2a F2b]. split; [assumption|]. intros u Hu R Hin. apply (F2b u Hu R).
+    destruct (D u Hin) as [X|[]]. rewrite app_nil_r. assumption. }
+  destruct (ustep_ok anyP I orc _ o G' _ used' A F3) as [_ [B C]].
+  - intros sid h v ms e _ _ _ _ _ _. exact I.
+  - split; assumption.
+Qed.
